@@ -21,6 +21,10 @@ pub enum Kind {
     GetXObject,
     GetStream,
     GetObjStm,
+    /// the generic views: get::<Primitive>, get::<Dictionary>, get::<i32>
+    GetPrimitive,
+    GetDict,
+    GetInt,
     StreamData,
     RawImageData,
     ImageData,
@@ -43,6 +47,9 @@ pub fn c12_doc(variant: usize) -> Vec<u8> {
             pf::a85_encode(&pf::flate_encode(&img, pf::FlateStyle::ZlibDefault), pf::A85Style::Plain),
         ),
     ));
+    // an integer object and an object that is nothing but a reference to it
+    objs.push((52, Val::Int(42)));
+    objs.push((53, Val::Ref(52, 0)));
     rich_doc_with(b"", if variant == 0 { DocOpts::CLASSIC } else { DocOpts::STREAM }, &objs)
 }
 
@@ -89,11 +96,13 @@ pub fn alphabet_wide(variant: usize) -> Vec<Call> {
     let mut a: Vec<Call> = vec![];
     let mut objs: Vec<u64> = (1..=38).collect();
     objs.push(50);
+    objs.push(52);
+    objs.push(53);
     if variant == 1 {
         objs.push(40);
     }
     for &n in &objs {
-        for k in [Resolve, GetPagesNode, GetFont, GetXObject, GetStream] {
+        for k in [Resolve, GetPagesNode, GetFont, GetXObject, GetStream, GetPrimitive, GetDict, GetInt] {
             a.push((k, n));
         }
     }
@@ -150,6 +159,18 @@ where
         },
         Kind::GetStream => match r.get::<Stream<()>>(Ref::new(pr)) {
             Ok(s) => format!("Stream(len={}, filters={})", s.len(), s.info.get_filters().len()),
+            Err(x) => e(&x),
+        },
+        Kind::GetPrimitive => match r.get::<pdf::primitive::Primitive>(Ref::new(pr)) {
+            Ok(p) => show_val(&crate::walker::prim_to_val_hashed(&p, &r)),
+            Err(x) => e(&x),
+        },
+        Kind::GetDict => match r.get::<pdf::primitive::Dictionary>(Ref::new(pr)) {
+            Ok(d) => show_val(&crate::walker::prim_to_val_hashed(&pdf::primitive::Primitive::Dictionary((*d).clone()), &r)),
+            Err(x) => e(&x),
+        },
+        Kind::GetInt => match r.get::<i32>(Ref::new(pr)) {
+            Ok(i) => format!("Int({})", *i),
             Err(x) => e(&x),
         },
         Kind::GetObjStm => match r.get::<ObjectStream>(Ref::new(pr)) {
@@ -434,7 +455,7 @@ pub fn run(tier: Tier, _seed: u64, tally: &mut Tally) -> CheckMeta {
     CheckMeta {
         prop: "C12",
         level: "model_checking",
-        rule: format!("call alphabet of {} (kind, object) pairs on two generated documents (classic; xref stream + object stream) containing pages, fonts, a Flate image with predictor, a hex+run-length mask, an [ASCII85 Flate] image, a form and content streams: kinds resolve, get::<PagesNode|Font|XObject|Stream|ObjectStream>, Stream::data, raw_image_data, image_data, get_page (incl. type-mismatching and out-of-range calls). Exhaustive: all sequences of length <= 2 under 5 cache configurations {{SyncCache both, object only, stream only, own map-backed caches, none}}, all sequences of length 3 under {}, every ordering (all permutations) of the distinct calls per object, and all ordered pairs over a wide alphabet of {} calls (resolve and get::<PagesNode|Font|XObject|Stream> on every object of the document, page look-ups) under all 5 configurations; plus the complete walk of {} repository files cached vs uncached (strict and tolerant). Each answer is compared with the same call made alone on a fresh uncached document (canonical digest / root-cause error variant).", total_alpha, if tier.thorough() { "every configuration" } else { "both-caches and own-map-caches" }, total_wide, n_corpus),
+        rule: format!("call alphabet of {} (kind, object) pairs on two generated documents (classic; xref stream + object stream) containing pages, fonts, a Flate image with predictor, a hex+run-length mask, an [ASCII85 Flate] image, a form and content streams: kinds resolve, get::<PagesNode|Font|XObject|Stream|ObjectStream>, Stream::data, raw_image_data, image_data, get_page (incl. type-mismatching and out-of-range calls). Exhaustive: all sequences of length <= 2 under 5 cache configurations {{SyncCache both, object only, stream only, own map-backed caches, none}}, all sequences of length 3 under {}, every ordering (all permutations) of the distinct calls per object, and all ordered pairs over a wide alphabet of {} calls (resolve and get::<PagesNode|Font|XObject|Stream|Primitive|Dictionary|i32> on every object of the document incl. an integer and a reference-only object, page look-ups) under all 5 configurations; plus the complete walk of {} repository files cached vs uncached (strict and tolerant). Each answer is compared with the same call made alone on a fresh uncached document (canonical digest / root-cause error variant).", total_alpha, if tier.thorough() { "every configuration" } else { "both-caches and own-map-caches" }, total_wide, n_corpus),
         assumptions: vec!["digests are independent of HashMap iteration order and file offsets".into()],
         exhaustive: true,
         bounds: json!({"sequence_len": maxlen}),
